@@ -81,6 +81,7 @@ def errName : PlanErr → String
   | .emptyQueue => "abort-empty-queue"
   | .offsets => "offsets"
   | .badConfig => "badconfig"
+  | .fuel => "model-fuel"
 
 def parseCounts (s : String) : Option (List Nat) :=
   (s.splitOn ",").filter (· ≠ "") |>.mapM (·.toNat?)
